@@ -69,6 +69,9 @@ func vfRunE1(t *testing.T, sc *vfE1, o vfE1Opts) *vfE1Out {
 			s.closeAll()
 			return
 		}
+		if sc.SeqPreset != 0 {
+			vfPresetSeq(s, sc.Acts, sc.SeqPreset)
+		}
 		if o.setup != nil {
 			o.setup(s)
 		}
